@@ -64,6 +64,22 @@ func massExitProfile() *Profile {
 	return p
 }
 
+// govHeavyProfile: many proposals that change the validator limits, the unbonding period and the fee
+// parameters, with tight validator-count limits - histories in which in-memory state derived from the
+// governance parameters matters.
+func govHeavyProfile() *Profile {
+	p := defaultProfile()
+	p.MinBlocks, p.MaxBlocks = 12, 34
+	p.MaxTxs = 8
+	p.MaxVals = 6
+	p.TightMaxVals = true
+	p.W["propose"], p.W["vote"] = 18, 26
+	p.W["stake"], p.W["unstake"] = 16, 10
+	p.PAbsent = 3
+	p.GovFocus = "maxValidatorCnt"
+	return p
+}
+
 func defaultProfile() *Profile {
 	return &Profile{MinBlocks: 6, MaxBlocks: 24, MaxTxs: 6, W: defaultWeights(), PFault: 12, PEvidence: 5,
 		PAbsent: 6, PNoProposer: 5, MaxVals: 5, Users: 3, SmallWindows: true, EarlyQuiet: true, OneGenesisUnbond: false,
@@ -1065,6 +1081,11 @@ func (s *GenSource) finish(w *World, sp *txSpec) ([]byte, string) {
 	gas := sp.gas
 	if s.P.VaryGas && !sp.contract {
 		gas = uint64(pick(t, []int{0, 1, 2, 10}, "gasExtra")) + p.MinTrxGas
+	}
+	if sp.contract && pct(t, 10, "evmGasBoundary") {
+		// around the intrinsic-gas boundaries of the EVM path (a plain transfer to a contract is admitted with the
+		// native minimum, far below the 21000 the EVM wants)
+		gas = pick(t, []uint64{p.MinTrxGas, p.MinTrxGas + 1, 20_999, 21_000, 21_001, 23_000, 52_999, 53_000, 60_000}, "evmGas")
 	}
 	if s.P.BlockGasBoundary && sp.contract && pct(t, 4, "blockGasBoundary") {
 		gas = pick(t, []uint64{25_000_000, 24_999_999, 25_000_001}, "blockGas")
